@@ -305,7 +305,13 @@ def replay(path: str) -> int:
 def main(tier: str) -> int:
     run = Run(PID, tier, "proof")
     use_repo()
+    # Props/C05.lean states the machine-completeness theorems for the parser variant read from the source
+    # (C05_generated_variant_is_now): regenerate it, a refusal is a broken obligation
+    from harness import translate_earley
+    tinfo = translate_earley.regenerate()
     lean = lean_check("Props.C05", ["drv_enum", "drv_ir"])
+    for r in tinfo.get("refusals", []):
+        lean.broken.append({"module": "Generated.Earley", "reason": "translator refused: " + str(r)})
     quick = tier == "quick"
     specs = mk_specs(run, tier)
     # ---- phase A: real front end + real fuzzer
